@@ -855,15 +855,21 @@ impl FrontendInternal {
         }
         self.check_state()?;
 
-        let mut buf: Vec<u8> = vec![0; hdr.get_size() as usize - mem::size_of::<T>()];
-        let (reply, body, bytes, files) = self.main_sock.recv_payload_into_buf::<T>(&mut buf)?;
+        // Read the fixed part of the reply first: how much payload follows is only known from
+        // the reply's own header. A reply that carries a shorter payload than the request (the
+        // backend signals failure with an empty one) must not be waited for.
+        let payload_size = hdr.get_size() as usize - mem::size_of::<T>();
+        let (reply, body, files) = self.main_sock.recv_body::<T>()?;
         if !reply.is_reply_for(hdr)
-            || reply.get_size() as usize != mem::size_of::<T>() + bytes
+            || reply.get_size() as usize != mem::size_of::<T>() + payload_size
             || files.is_some()
             || !body.is_valid()
-            || bytes != buf.len()
         {
             return Err(VhostUserError::InvalidMessage);
+        }
+        let (bytes, buf) = self.main_sock.recv_data(payload_size)?;
+        if bytes != payload_size {
+            return Err(VhostUserError::PartialMessage);
         }
 
         Ok((body, buf, files))
